@@ -17,13 +17,27 @@
      AND mu ||x̂ - x*||^2 <= tol ||x̂ - x*||_1.                                                    [C02_panoc_qp_converges_near_minimiser]
    Hypotheses of (2),(3), all visible in the statements: coherent problem oracles; tolerance factors of the QUB and line-search tests
      equal to 0 (with positive factors strict descent is lost); force_linesearch off; no stop request / time-out; max_iter >= N, fuel.
-   NOT PROVED (explored on the implementation by the check's oracle): liveness of the OUTER ALM loop and of PANTR / FISTA; ZeroFPR under
-     ApproxKKT; positive tolerance factors; the effect of binary64 rounding (the theorems are over R).  For those stacks the missing
-     link remains `stack_reaches_converged`. *)
+   (4) THE SHIPPED STACKS: (2),(3) for PanocDir.panocD / ZeroFprDir.zerofprD, i.e. the loops with the STATEFUL provider models of
+     Directions.v inside (the models whole-run correspondence ties to PANOCSolver<…Direction> / ZeroFPRSolver<…Direction>):
+       generic, for every dirops satisfying DirWf.dir_wf (no throw on n-vectors; apply returns n-vectors):
+                                                                  C02_panocdir_returns_converged[_ApproxKKT], C02_zerofprdir_returns_converged[_ApproxKKT]
+       LBFGSDirection (memory >= 1), AndersonDirection (n, memory >= 1), NoopDirection, StructuredLBFGSDirection (memory >= 1, the capability
+       checks of initialize pass, CBFGS off):                    C02_panoc_{lbfgs,anderson,noop,struclbfgs}_returns_converged, C02_zerofpr_{…}_returns_converged,
+                                                                  C02_panoc_lbfgs_returns_converged_ApproxKKT, C02_zerofpr_lbfgs_returns_converged_ApproxKKT
+       the shipped DEFAULT inner solver PANOC + LBFGS, ApproxKKT, on a strongly convex box QP:  C02_panoc_lbfgs_qp_converges_near_minimiser
+     Route: PANOCDIR_refines_oracle_model is for COMPLETED runs, so the liveness proof is run on PanocDir / ZeroFprDir directly, pass by pass
+     (one provider pass = one oracle pass with the oracle "trace of this pass", then the oracle-level pass lemma); the provider never throws and
+     the line search never runs out of fuel (PanocDirLive.v, ZeroFprDirLive.v).  The QP corollary then follows BY REFINEMENT.
+   (5) ZeroFPR under the default criterion ApproxKKT, every direction oracle:                      C02_zerofpr_returns_converged_ApproxKKT
+   NOT PROVED (explored on the implementation by the check's oracle): liveness of the OUTER ALM loop and of PANTR / FISTA;
+     positive tolerance factors (see the note at the end of this file); the effect of binary64 rounding (the theorems are over R).
+     For those stacks the missing link remains `stack_reaches_converged`. *)
 From Coq Require Import Reals List ZArith Bool Lra Lia.
 From Flocq Require Import Raux.
+From Alpaqa Require Import Lbfgs LMQR Directions DirWf.     (* first: Lbfgs.params / state are shadowed by Panoc's below *)
 From Alpaqa Require Import Num NumR Vec Prox ProxProofs ProxVec QpBound SolverStatus SolverKernels DescentProofs StopChain StopChainProofs
-                           Panoc PanocProofs LiveVec PanocLive PanocLiveN PanocLiveKkt QpLive ZeroFpr ZeroFprProofs ZeroFprLive.
+                           Panoc PanocProofs LiveVec PanocLive PanocLiveN PanocLiveKkt QpLive ZeroFpr ZeroFprProofs ZeroFprLive ZeroFprLiveG
+                           PanocDir ZeroFprDir PanocDirLive ZeroFprDirLive.
 Import ListNotations.
 Local Open Scope R_scope.
 
@@ -508,3 +522,230 @@ Proof.
   - cbn. lia.
   - lia.
 Qed.
+
+(* ====================================================================================================================
+   (5) ZeroFPR under the DEFAULT criterion ApproxKKT (ε = ‖p/γ + ∇ψ(x) - ∇ψ(x̂)‖∞, ∇ψ(x̂) from ZeroFPR's prox iterate), ∇ψ Lg-Lipschitz,
+       for EVERY direction oracle.  Proof: ZeroFprLiveG.v (port of PanocLiveKkt.v: abstract criterion, then the instance).
+   ==================================================================================================================== *)
+Section C02_ZEROFPR_LIVE_KKT.
+  Variable psi_grad_full : list R -> R * list R * list R.
+  Variable psi_yhat : list R -> R * list R.
+  Variable grad_L : list R -> list R -> list R.
+  Variable grad_psi : list R -> list R.
+  Variables (lb ub : list (option R)).
+  Variable dir_apply : nat -> iterate (T:=R) -> proxit (T:=R) -> option (list R).   (* ARBITRARY *)
+  Variable has_initial : bool.
+  Variable P : params (T:=R).
+  Variables (x_in y_in Σ errz_in : list R).
+  Variable ls_fuel : nat.
+  Variables (ψ : list R -> R) (g : list R -> list R) (n : nat) (Lf ψinf Lg : R).
+
+  Notation never := (fun _ : counters => false).
+  Notation run := (zerofpr psi_grad_full psi_yhat grad_L grad_psi lb ub [] dir_apply has_initial never never P x_in y_in Σ errz_in ls_fuel).
+  Notation Linit := (L_init psi_grad_full grad_psi P x_in).
+
+  Hypothesis oracle_values : forall x, psi_grad psi_grad_full x = (ψ x, g x).
+  Hypothesis oracles_coherent : zcoherent psi_grad_full psi_yhat grad_L.
+  Hypothesis grad_length : forall x, length x = n -> length (g x) = n.
+  Hypothesis quadratic_upper_bound : forall u d, length u = n -> length d = n ->
+    ψ (vadd u d) <= ψ u + vdot (g u) d + Lf / 2 * vsqnorm d.
+  Hypothesis gradient_lipschitz : forall u d, length u = n -> length d = n ->
+    vsqnorm (vsub (g u) (g (vadd u d))) <= Lg * Lg * vsqnorm d.
+  Hypothesis Lg_nonneg : 0 <= Lg.
+  Hypothesis bounded_below_on_C : forall z, all_in_box lb ub z -> ψinf <= ψ z.
+  Hypothesis len_lb : length lb = n.
+  Hypothesis len_ub : length ub = n.
+  Hypothesis boxes_nonempty : Forall2 box_ne lb ub.
+  Hypothesis len_x : length x_in = n.
+  Hypothesis direction_dimension : forall j i px q, dir_apply j i px = Some q -> length q = n.
+  Hypothesis Lgamma_factor : 0 < p_Lgamma P < 1.
+  Hypothesis L_init_positive : 0 < Linit.
+  Hypothesis Lf_below_L_max : Lf <= p_Lmax P.
+  Hypothesis qub_tolerance_factor_zero : p_qub_tol P = 0.
+  Hypothesis linesearch_tolerance_factor_zero : p_ls_tol P = 0.
+  Hypothesis strictness_factor : 0 < p_beta P <= 1.
+  Hypothesis force_linesearch_off : p_force_ls P = false.
+  Hypothesis criterion : p_crit P = ApproxKKT.
+  Variables (nL nT : nat).
+  Hypothesis L_max_reached : p_Lmax P <= Linit * 2 ^ nL.
+  Hypothesis tau_min_reached : (1 / 2) ^ nT < p_tau_min P.
+  Hypothesis linesearch_fuel : (ZeroFprProofs.ls_pass_bound nL nT <= ls_fuel)%nat.
+
+  Notation Dec := (dec_kkt psi_grad_full grad_psi P x_in Lf Lg).     (* cmin·δ², δ = tol / (1/γmin + Lg): the constants of the PANOC theorem *)
+  Notation PHI0 := (Phi0 psi_grad_full grad_psi lb ub P x_in ψ g Lf).
+
+  Theorem C02_zerofpr_returns_converged_ApproxKKT : forall (N fuel : nat),
+    PHI0 - ψinf < INR N * Dec -> (N <= p_max_iter P)%nat -> (N < fuel)%nat ->
+    exists o, run fuel = Done o /\ out_status o = StConverged /\ (out_iterations o < N)%nat.
+  Proof.
+    exact (zerofpr_live_kkt psi_grad_full psi_yhat grad_L grad_psi lb ub dir_apply has_initial P x_in y_in Σ errz_in ls_fuel ψ g n Lf ψinf Lg
+             oracle_values oracles_coherent grad_length quadratic_upper_bound gradient_lipschitz Lg_nonneg bounded_below_on_C len_lb len_ub
+             boxes_nonempty len_x direction_dimension Lgamma_factor L_init_positive Lf_below_L_max qub_tolerance_factor_zero
+             linesearch_tolerance_factor_zero strictness_factor force_linesearch_off criterion nL nT L_max_reached tau_min_reached linesearch_fuel).
+  Qed.
+End C02_ZEROFPR_LIVE_KKT.
+Print Assumptions C02_zerofpr_returns_converged_ApproxKKT.
+
+(* ====================================================================================================================
+   (4) THE SHIPPED STACKS — PANOC with the stateful provider models of Directions.v inside the loop (PanocDir.panocD).
+   The problem hypotheses are those of C02_panoc_returns_converged; N is the same explicit bound (same Dec, same PHI0).
+   The only provider-specific obligation is DirWf.dir_wf: on n-vectors no call throws, and apply returns n-vectors when it returns true.
+   ==================================================================================================================== *)
+Section C02_PANOC_SHIPPED.
+  Variable psi_grad_full : list R -> R * list R * list R.
+  Variable psi_yhat : list R -> R * list R.
+  Variable grad_L : list R -> list R -> list R.
+  Variable grad_psi : list R -> list R.
+  Variables (lb ub : list (option R)).
+  Variable P : params (T:=R).
+  Variables (x_in y_in Σ errz_in : list R).
+  Variable ls_fuel : nat.
+  Variables (ψ : list R -> R) (g : list R -> list R) (n : nat) (Lf ψinf Lg : R).
+
+  Notation never := (fun _ : counters => false).
+  Notation runD D ops d0 := (panocD psi_grad_full psi_yhat grad_L grad_psi lb ub [] D ops never never P x_in y_in Σ errz_in ls_fuel d0).
+  Notation Linit := (L_init psi_grad_full grad_psi P x_in).
+
+  Hypothesis oracle_values : forall x, psi_grad psi_grad_full x = (ψ x, g x).
+  Hypothesis oracles_coherent : coherent psi_grad_full psi_yhat grad_L grad_psi P.
+  Hypothesis grad_length : forall x, length x = n -> length (g x) = n.
+  Hypothesis quadratic_upper_bound : forall u d, length u = n -> length d = n ->
+    ψ (vadd u d) <= ψ u + vdot (g u) d + Lf / 2 * vsqnorm d.
+  Hypothesis bounded_below_on_C : forall z, all_in_box lb ub z -> ψinf <= ψ z.
+  Hypothesis len_lb : length lb = n.
+  Hypothesis len_ub : length ub = n.
+  Hypothesis boxes_nonempty : Forall2 box_ne lb ub.
+  Hypothesis len_x : length x_in = n.
+  Hypothesis Lgamma_factor : 0 < p_Lgamma P < 1.
+  Hypothesis L_init_positive : 0 < Linit.
+  Hypothesis Lf_below_L_max : Lf <= p_Lmax P.
+  Hypothesis qub_tolerance_factor_zero : p_qub_tol P = 0.
+  Hypothesis linesearch_tolerance_factor_zero : p_ls_tol P = 0.
+  Hypothesis strictness_factor : 0 < p_beta P <= 1.
+  Hypothesis force_linesearch_off : p_force_ls P = false.
+  Variables (nL nT : nat).
+  Hypothesis L_max_reached : p_Lmax P <= Linit * 2 ^ nL.
+  Hypothesis tau_factor : 0 <= p_tau_factor P <= 1.
+  Hypothesis tau_min_reached : p_tau_factor P ^ nT < p_tau_min P.
+  Hypothesis linesearch_fuel : (ls_pass_bound nL nT <= ls_fuel)%nat.
+  (* the two families of criteria (each theorem uses one of them) *)
+  Hypothesis criterion_norms : p_crit P = ProjGradNorm \/ p_crit P = ProjGradNorm2 \/ p_crit P = FPRNorm \/ p_crit P = FPRNorm2.
+  Hypothesis criterion_kkt : p_crit P = ApproxKKT.
+  Hypothesis gradient_lipschitz : forall u d, length u = n -> length d = n ->
+    vsqnorm (vsub (g u) (g (vadd u d))) <= Lg * Lg * vsqnorm d.
+  Hypothesis Lg_nonneg : 0 <= Lg.
+
+  Notation Dec := (dec psi_grad_full grad_psi P x_in Lf).
+  Notation DecK := (dec_kkt psi_grad_full grad_psi P x_in Lf Lg).
+  Notation PHI0 := (Phi0 psi_grad_full grad_psi lb ub P x_in ψ g Lf).
+  Notation Converged_within D r N := (exists oD, r = DoneD D oD /\ out_status (od_out D oD) = StConverged /\ lt (out_iterations (od_out D oD)) N).
+  Notation live4 D ops d0 I0 Iv Hwf HI0 :=
+    (panocD_returns_converged psi_grad_full psi_yhat grad_L grad_psi lb ub D ops P x_in y_in Σ errz_in ls_fuel d0 ψ g n Lf ψinf
+       oracle_values oracles_coherent grad_length quadratic_upper_bound bounded_below_on_C len_lb len_ub boxes_nonempty len_x
+       Lgamma_factor L_init_positive Lf_below_L_max qub_tolerance_factor_zero linesearch_tolerance_factor_zero strictness_factor
+       force_linesearch_off nL nT L_max_reached tau_factor tau_min_reached linesearch_fuel I0 Iv Hwf HI0 criterion_norms).
+  Notation liveK D ops d0 I0 Iv Hwf HI0 :=
+    (panocD_returns_converged_kkt psi_grad_full psi_yhat grad_L grad_psi lb ub D ops P x_in y_in Σ errz_in ls_fuel d0 ψ g n Lf ψinf
+       oracle_values oracles_coherent grad_length quadratic_upper_bound bounded_below_on_C len_lb len_ub boxes_nonempty len_x
+       Lgamma_factor L_init_positive Lf_below_L_max qub_tolerance_factor_zero linesearch_tolerance_factor_zero strictness_factor
+       force_linesearch_off nL nT L_max_reached tau_factor tau_min_reached linesearch_fuel I0 Iv Hwf HI0 Lg gradient_lipschitz Lg_nonneg criterion_kkt).
+
+  (* ---- generic: EVERY provider (any state type, any operations) that does not throw on n-vectors and whose apply returns n-vectors *)
+  Theorem C02_panocdir_returns_converged : forall (D : Type) (ops : dirops R D) (d0 : D) (I0 Iv : D -> Prop),
+    dir_wf n D ops I0 Iv -> I0 d0 ->
+    forall (N fuel : nat), PHI0 - ψinf < INR N * Dec -> (N <= p_max_iter P)%nat -> (N < fuel)%nat ->
+    Converged_within D (runD D ops d0 fuel) N.
+  Proof. exact (fun D ops d0 I0 Iv Hwf HI0 => live4 D ops d0 I0 Iv Hwf HI0). Qed.
+
+  Theorem C02_panocdir_returns_converged_ApproxKKT : forall (D : Type) (ops : dirops R D) (d0 : D) (I0 Iv : D -> Prop),
+    dir_wf n D ops I0 Iv -> I0 d0 ->
+    forall (N fuel : nat), PHI0 - ψinf < INR N * DecK -> (N <= p_max_iter P)%nat -> (N < fuel)%nat ->
+    Converged_within D (runD D ops d0 fuel) N.
+  Proof. exact (fun D ops d0 I0 Iv Hwf HI0 => liveK D ops d0 I0 Iv Hwf HI0). Qed.
+
+  (* ---- LBFGSDirection: any parameters with memory >= 1 (resize throws otherwise), any CBFGS / curvature / rescaling setting,
+          any provider state to start from *)
+  Theorem C02_panoc_lbfgs_returns_converged : forall (pw : R -> R -> R) (LP : Lbfgs.params R) (rescale : bool) (d0 : Lbfgs.state R),
+    (1 <= Lbfgs.p_memory LP)%nat ->
+    forall (N fuel : nat), PHI0 - ψinf < INR N * Dec -> (N <= p_max_iter P)%nat -> (N < fuel)%nat ->
+    Converged_within _ (runD _ (lbfgs_dir n pw LP rescale) d0 fuel) N.
+  Proof. exact (fun pw LP rescale d0 Hmem => live4 _ (lbfgs_dir n pw LP rescale) d0 _ _ (lbfgs_wf n pw LP rescale Hmem) I). Qed.
+
+  Theorem C02_panoc_lbfgs_returns_converged_ApproxKKT : forall (pw : R -> R -> R) (LP : Lbfgs.params R) (rescale : bool) (d0 : Lbfgs.state R),
+    (1 <= Lbfgs.p_memory LP)%nat ->
+    forall (N fuel : nat), PHI0 - ψinf < INR N * DecK -> (N <= p_max_iter P)%nat -> (N < fuel)%nat ->
+    Converged_within _ (runD _ (lbfgs_dir n pw LP rescale) d0 fuel) N.
+  Proof. exact (fun pw LP rescale d0 Hmem => liveK _ (lbfgs_dir n pw LP rescale) d0 _ _ (lbfgs_wf n pw LP rescale Hmem) I). Qed.
+
+  (* ---- AndersonDirection: n >= 1 and memory >= 1 (window min(n, memory) non-empty); starts from the default-constructed accelerator *)
+  Theorem C02_panoc_anderson_returns_converged : forall (mem : nat) (mdf : R) (rescale : bool),
+    (0 < n)%nat -> (0 < mem)%nat ->
+    forall (N fuel : nat), PHI0 - ψinf < INR N * Dec -> (N <= p_max_iter P)%nat -> (N < fuel)%nat ->
+    Converged_within _ (runD _ (anderson_dir n mem mdf rescale) (anderson_unsized mem mdf) fuel) N.
+  Proof.
+    exact (fun mem mdf rescale Hn Hmem => live4 _ (anderson_dir n mem mdf rescale) (anderson_unsized mem mdf) _ _ (anderson_wf n mem mdf rescale Hn Hmem)
+             (fun E : length (@nil R) = n => Nat.lt_irrefl 0 (eq_ind_r (fun k => (0 < k)%nat) Hn E))).
+  Qed.
+
+  (* ---- NoopDirection *)
+  Theorem C02_panoc_noop_returns_converged :
+    forall (N fuel : nat), PHI0 - ψinf < INR N * Dec -> (N <= p_max_iter P)%nat -> (N < fuel)%nat ->
+    Converged_within _ (runD _ (noop_dir (T:=R)) tt fuel) N.
+  Proof. exact (live4 _ (noop_dir (T:=R)) tt _ _ (noop_wf n) I). Qed.
+
+  (* ---- StructuredLBFGSDirection: for every problem data it looks at (its own C, l1, D, Hessian members: arbitrary), under the hypotheses
+          that exclude its three `throw`s: memory >= 1; the capability checks of initialize pass (struct_init_ok: provides_eval_inactive_indices_res_lna
+          and, when hessian_vec_factor != 0 without finite differences, the Hessian-product members it needs); CBFGS off (apply_masked throws) *)
+  Theorem C02_panoc_struclbfgs_returns_converged :
+    forall (pw : R -> R -> R) (LP : Lbfgs.params R) (Clb Cub : list (option R)) (Cl1 : list R) (Dlb Dub : list (option R))
+           (prov_inactive prov_hess_L prov_hess_psi prov_box_D prov_grad_gi : bool)
+           (grad_psi_at : list R -> list R -> list R -> list R) (hess_L_prod : list R -> list R -> R -> list R -> list R)
+           (hess_psi_prod : list R -> list R -> list R -> R -> list R -> list R) (eval_g : list R -> list R) (grad_gi : list R -> nat -> list R)
+           (cbrt_eps hvf : R) (fd full_aug use_scaled : bool) (d0 : sdstate (T:=R)),
+    (1 <= Lbfgs.p_memory LP)%nat ->
+    struct_init_ok prov_inactive prov_hess_L prov_hess_psi prov_box_D prov_grad_gi hvf fd full_aug = true ->
+    cbfgs_on LP = false ->
+    forall (N fuel : nat), PHI0 - ψinf < INR N * Dec -> (N <= p_max_iter P)%nat -> (N < fuel)%nat ->
+    Converged_within _ (runD _ (struct_dir n pw LP Clb Cub Cl1 Dlb Dub prov_inactive prov_hess_L prov_hess_psi prov_box_D prov_grad_gi
+                                            grad_psi_at hess_L_prod hess_psi_prod eval_g grad_gi cbrt_eps hvf fd full_aug use_scaled) d0 fuel) N.
+  Proof.
+    exact (fun pw LP Clb Cub Cl1 Dlb Dub a1 a2 a3 a4 a5 f1 f2 f3 f4 f5 ce hvf fd fa us d0 Hmem Hcap Hcb =>
+             live4 _ (struct_dir n pw LP Clb Cub Cl1 Dlb Dub a1 a2 a3 a4 a5 f1 f2 f3 f4 f5 ce hvf fd fa us) d0 _ _
+                   (struct_wf n pw LP Clb Cub Cl1 Dlb Dub a1 a2 a3 a4 a5 f1 f2 f3 f4 f5 ce hvf fd fa us Hmem Hcap Hcb) I).
+  Qed.
+
+  (* ---- END TO END for the shipped default inner solver PANOC + LBFGSDirection, default criterion, on a strongly convex box QP
+          (from C02_panoc_qp_converges_near_minimiser BY REFINEMENT: the completed provider run is the oracle run with its own trace) *)
+  Variables (Qmul : list R -> list R) (c : list R) (μ : R) (xs rs : list R).
+  Hypothesis gradient_of_qp : forall x, length x = n -> g x = vplus (Qmul x) c.
+  Hypothesis Q_length : forall x, length x = n -> length (Qmul x) = n.
+  Hypothesis c_length : length c = n.
+  Hypothesis xs_rs_length : length xs = n /\ length rs = n.
+  Hypothesis strongly_convex : forall x, length x = n -> μ_ok μ Qmul x xs.
+  Hypothesis exact_kkt_stationarity : vplus (Qmul xs) c = map Ropp rs.
+  Hypothesis exact_kkt_C : in_boxv lb ub xs /\ in_ncone lb ub xs rs.
+
+  Theorem C02_panoc_lbfgs_qp_converges_near_minimiser : forall (pw : R -> R -> R) (LP : Lbfgs.params R) (rescale : bool) (d0 : Lbfgs.state R),
+    (1 <= Lbfgs.p_memory LP)%nat ->
+    forall (N fuel : nat), PHI0 - ψinf < INR N * DecK -> (N <= p_max_iter P)%nat -> (N < fuel)%nat ->
+    exists oD, runD _ (lbfgs_dir n pw LP rescale) d0 fuel = DoneD _ oD /\
+      out_status (od_out _ oD) = StConverged /\ (out_iterations (od_out _ oD) < N)%nat /\
+      μ * dot (vminus (out_x (od_out _ oD)) xs) (vminus (out_x (od_out _ oD)) xs) <= eff_tol (o_tol P) * norm1 (vminus (out_x (od_out _ oD)) xs).
+  Proof.
+    exact (fun pw LP rescale d0 Hmem =>
+      panocD_qp_converges_near_minimiser psi_grad_full psi_yhat grad_L grad_psi lb ub _ (lbfgs_dir n pw LP rescale) P x_in y_in Σ errz_in ls_fuel d0
+        ψ g n Lf ψinf oracle_values oracles_coherent grad_length quadratic_upper_bound bounded_below_on_C len_lb len_ub boxes_nonempty len_x
+        Lgamma_factor L_init_positive Lf_below_L_max qub_tolerance_factor_zero linesearch_tolerance_factor_zero strictness_factor
+        force_linesearch_off nL nT L_max_reached tau_factor tau_min_reached linesearch_fuel _ _ (lbfgs_wf n pw LP rescale Hmem) I
+        Lg gradient_lipschitz Lg_nonneg Qmul c μ xs rs gradient_of_qp Q_length c_length xs_rs_length strongly_convex exact_kkt_stationarity exact_kkt_C
+        criterion_kkt).
+  Qed.
+End C02_PANOC_SHIPPED.
+Print Assumptions C02_panocdir_returns_converged.
+Print Assumptions C02_panocdir_returns_converged_ApproxKKT.
+Print Assumptions C02_panoc_lbfgs_returns_converged.
+Print Assumptions C02_panoc_lbfgs_returns_converged_ApproxKKT.
+Print Assumptions C02_panoc_anderson_returns_converged.
+Print Assumptions C02_panoc_noop_returns_converged.
+Print Assumptions C02_panoc_struclbfgs_returns_converged.
+Print Assumptions C02_panoc_lbfgs_qp_converges_near_minimiser.
